@@ -39,6 +39,12 @@ def family(rng):
         decay = ("-x%d/%s" % (i, k)) if use_tau else ("-%s*x%d" % (k, i))
         feed = (" + x%d" % parents[i]) if parents[i] is not None else ""
         dyn.append({"expression": "x%d' = %s%s" % (i, decay, feed), "initial_value": "1"})
+    if rng.random() < 0.3:
+        # a disconnected extra node whose decay uses an already used constant in the *other* form: the system matrix then
+        # contains both k and 1/k, so `k = 0` must never be reported
+        k = consts[0]
+        dyn.append({"expression": ("z9' = -z9/%s" % k) if not is_tau[0] else ("z9' = -%s*z9" % k), "initial_value": "1"})
+        dyn.append({"expression": "z8' = x0", "initial_value": "0"}) if not is_tau[0] else None
     expected = set()
     for i in range(n):
         j = parents[i]
@@ -108,6 +114,16 @@ def case_detect(case):
     if "singularities" not in tr:
         return {"no_detection": True, "error": tr.get("error")}
     P, A = tr["singularities"]["P"], tr["singularities"]["A"]
+    # what the analysis reports = union over all detector calls it made; the matrices it is judged against are the
+    # FULL propagator and system matrices of the analytic sub-system
+    calls = tr.get("singularity_calls", [])
+    A_full = tr["propagator_input"]["A"] if "propagator_input" in tr else A
+    P_full = tr.get("P", P)
+    reported_all = []
+    for c_ in calls:
+        for cond in c_["conditions"]:
+            if cond not in reported_all:
+                reported_all.append(cond)
     conds = []          # canonical strings; id = index
 
     def cid(c):
@@ -128,11 +144,16 @@ def case_detect(case):
     import odetoolbox.singularity_detection as sd2
     real = sd2.SingularityDetection.find_singularities(P, A)
     real_ids = [cid(c) for c in real]
+    single_call = len(calls) == 1 and P.shape == P_full.shape
     # direct oracle: each reported condition makes some P entry undefined and keeps A defined
     problems = []
-    for c in real:
+    structure = None
+    if not single_call:
+        structure = {"what": "singularity detection was not run once on the full propagator / system matrix (the model assumes it is)", "calls": len(calls),
+                     "shapes": [list(c_["P"].shape) for c_ in calls], "full": list(P_full.shape)}
+    for c in reported_all:
         bad_p = False
-        for e in sympy.flatten(P):
+        for e in sympy.flatten(P_full):
             v = e
             try:
                 for k, w in c.items():
@@ -144,7 +165,7 @@ def case_detect(case):
                 bad_p = True
                 break
         a_def = True
-        for e in sympy.flatten(A):
+        for e in sympy.flatten(A_full):
             v = e
             for k, w in c.items():
                 v = v.subs(k, w)
@@ -154,9 +175,9 @@ def case_detect(case):
             problems.append({"what": "reported condition does not make any propagator entry undefined", "condition": {str(k): str(v) for k, v in c.items()}})
         if not a_def:
             problems.append({"what": "reported condition makes the system matrix undefined", "condition": {str(k): str(v) for k, v in c.items()}})
-    reported_pairs = sorted(sorted([str(k), str(v)]) for c in real for k, v in c.items())
+    reported_pairs = sorted(sorted([str(k), str(v)]) for c in reported_all for k, v in c.items())
     return {"payload": {"entries": entries, "solve": table, "undefined_A": undefined}, "real_ids": real_ids, "reported": [json.loads(conds[i]) for i in real_ids],
-            "reported_pairs": reported_pairs, "problems": problems, "n_solve_calls": len(solves)}
+            "reported_pairs": reported_pairs, "problems": problems, "n_solve_calls": len(solves), "structure": structure}
 
 
 def run(ctx, driver):
@@ -182,6 +203,8 @@ def run(ctx, driver):
         if res.get("no_detection"):
             ctx.count("no_detection:" + str((res.get("error") or {}).get("type")))
             continue
+        if res.get("structure"):
+            ctx.tie_break("corr:singularities-call-structure", {"case": case["indict"], "detail": res["structure"]})
         ctx.count("form:" + case.get("form", "?"))
         ctx.count("n:%s" % case.get("n"))
         if case["expected"]:
